@@ -1528,6 +1528,8 @@ where
                     // committed, entries of the next table may still be reachable through `prev`
                     // (which is still `self.table`) and must not be retired from there.
                     while self.table.load(Ordering::SeqCst, guard) == prev {
+                        #[cfg(flurry_verif)]
+                        crate::verif::spin();
                         std::thread::yield_now();
                     }
                     // start from the first bin again in the new table
